@@ -342,6 +342,21 @@ func allOps() []opdef {
 		m.MapSet(func(s ConstScalar) Scalar { r := NewScalar(e.in.T, 0); r.Mul(s, NewScalar(e.in.T, 3)); return r })
 		return snap(m)
 	}})
+	add(opdef{name: "WriteZerosThenObserve", methods: []string{"At"}, mut: true, applies: nonempty, run: func(e *env, m Matrix) interface{} {
+		c := e.c
+		content := make([][]float64, c.Vr)
+		for i := range content {
+			content[i] = make([]float64, c.Vc)
+			for j := range content[i] {
+				content[i][j] = c.val(e.in.Pat, i, j)
+				if content[i][j] == 0 || (i+j)%3 == 0 {
+					content[i][j] = float64(40 + i*c.Vc + j)
+					m.At(i, j).SetFloat64(content[i][j])
+				}
+			}
+		}
+		return []interface{}{snap(m), e.observers(m, content)}
+	}})
 	add(opdef{name: "IteratorWrite", methods: []string{"Iterator"}, mut: true, run: func(e *env, m Matrix) interface{} {
 		n := 0
 		for it := m.Iterator(); it.Ok(); it.Next() {
@@ -503,7 +518,13 @@ type outcome struct {
 
 func runOp(e *env, o *opdef, m Matrix) outcome {
 	var r outcome
-	r.Panic = vh.Try(func() { r.Obs = o.run(e, m) })
+	r.Panic = vh.Try(func() {
+		r.Obs = o.run(e, m)
+		if o.mut {
+			// what the iterators of the written matrix deliver, next to what element access shows
+			r.Obs = []interface{}{r.Obs, iterSnap(m)}
+		}
+	})
 	if r.Panic != "" {
 		r.Obs = nil
 	}
